@@ -96,7 +96,7 @@ class BitmapMetrics(NamedTuple):
             ),
             y_offset=_nudge_into_range(
                 _INT8_RANGE,
-                round(line_ascent - 0.5 * (line_height - config.bitmap_resolution)),
+                round(line_ascent - 0.5 * (line_height - image_data.size[1])),
             ),
             line_height=line_height,
             line_ascent=round(line_ascent),
